@@ -181,6 +181,10 @@ def suspend_ticks(ram, tps):
 # Executable reference model of the executor
 # ---------------------------------------------------------------------------
 
+class Ambiguous(Exception):
+    pass
+
+
 class Reject(Exception):
     def __init__(self, reason, pool=None, detail=""):
         super().__init__(f"{reason} pool={pool} {detail}")
@@ -287,7 +291,7 @@ class RefExecutor:
                 rc.status = "susp"
                 d = suspend_ticks(rc.ram, self.tps)
                 if len(d) != 1:
-                    self.notes.append("ambiguous write-out duration")
+                    raise Ambiguous("write-out duration at a float boundary")
                 rc.left = d[0]
                 rc.mem = Fr(0)  # a container that no longer runs uses no memory (C04)
                 for op in rc.ops[rc.cur:]:
